@@ -48,3 +48,23 @@ Example C06_example :
   msg_ok m = true /\ single_ma (m_attrs m) = true /\
   match radmsg2buf md5 m [115] with Ok (Some (b, _)) => wf_packet b = true | _ => False end.
 Proof. vm_compute. repeat split. Qed.
+
+From RSP Require Import Crypt Rewrite Choose Proxy Slots_proofs Dup_proofs Reply_proofs Forward_proofs Wf_proofs.
+
+(* through the handler (PARTIAL: configurations with no rewrite block on the request path): for every state,
+   received packet (>= 20 octets), oracle and allocation-failure pattern, whatever radsrv places in a server
+   table is a well-formed RADIUS packet (length field = octets, 20..4096, attributes tile), and a correctly
+   signed Accounting-Request when it is one.  msg_ok is established by the parser and kept by the TTL check,
+   the User-Name stage, CHAP-Challenge completion, User-Password re-encryption, the Message-Authenticator
+   placeholder and the TTL insertion (Proofs/Wf_proofs.v).  With rewrite blocks the same is evaluated on every
+   emitted packet of the correspondence run (the C06_emit specs), not proved. *)
+Theorem C06_forwarded_wf : forall md5, (forall x, length (md5 x) = 16%nat) -> (forall x, wf_bytes (md5 x) = true) ->
+  forall rx cfg fs st h c now rnd s i b,
+  In (OEnq s i b) (snd (radsrv md5 rx cfg fs st h c now rnd)) ->
+  cc_rwin (clconf_of cfg c) = None -> cc_rwuser (clconf_of cfg c) = None -> sc_rwout (srvconf_of cfg s) = None ->
+  (forall r0, get_rq st h = Some r0 -> exists buf, rq_buf r0 = Some buf /\ wf_bytes buf = true /\ (20 <= length buf)%nat) ->
+  wf_bytes rnd = true -> is_byte (o_addttl (cf_opt cfg)) = true -> is_byte (sc_addttl (srvconf_of cfg s)) = true -> i < 256 ->
+  wf_packet b = true /\
+  (nth 0 b 0 = Consts.RAD_Accounting_Request -> acct_request_auth_ok md5 b (sc_secret (srvconf_of cfg s)) = true).
+Proof. exact radsrv_emits_wf. Qed.
+Print Assumptions C06_forwarded_wf.
